@@ -68,7 +68,8 @@ def gen_tables(rng, tier, seed):
         else:
             ops.append(['close_server_then_open', link, rng.randrange(2)])
     # the last thing in some histories: an open that the caller gives up (cancels, as a timeout would) while the answer is on its way
-    abandon = [rng.randrange(2), rng.randrange(2), rng.choice([0.0, 0.0, 0.001, 0.01])] if rng.random() < 0.25 else None
+    # (the peer may accept the abandoned request, or refuse it: no server on that PSM)
+    abandon = [rng.randrange(2), rng.randrange(2), rng.choice([0.0, 0.0, 0.001, 0.01]), rng.random() < 0.4] if rng.random() < 0.3 else None
     return {'link2': link2, 'profile': rng.choice(PROFILE_NAMES), 'ops': ops, 'abandon': abandon}
 
 
@@ -530,12 +531,16 @@ def run_tables(case):
             if sim.violations:
                 break
         if case.get('abandon') and not sim.violations:
-            link, side, wait = case['abandon']
+            link, side, wait = case['abandon'][:3]
+            refused = len(case['abandon']) > 3 and case['abandon'][3]
             if cx.links[link] is not None:
                 ck = 'classic' if cx.classic(link) else 'le_coc'
                 peer_node = cx.node(link, 1 - side)
                 psm = (CL_PSMS if ck == 'classic' else LE_PSMS)[0]
-                if psm in cx.servers[peer_node]:
+                if refused:
+                    psm = CL_PSM_NOSERVER if ck == 'classic' else LE_PSM_NOSERVER
+                    sim.probe('abandoned_open_that_the_peer_refuses')
+                if refused or psm in cx.servers[peer_node]:
                     node = cx.node(link, side)
                     mgr = world[node].device.l2cap_channel_manager
                     handle = cx.links[link][side].handle
